@@ -325,11 +325,13 @@ pub fn run_c09(ctx: &Ctx) -> i32 {
         }
     });
     // engine self-check: second explorer (stateright) must see the same number of states
-    let sr = stateright_states(&start, &alphabet, Some(enabled.clone()), false);
-    if out.closed && sr != out.states {
-        machinery_error(&format!("C09: stateright explored {} unique states, own explorer {}", sr, out.states));
+    if out.closed && out.caps.is_empty() && ctx.vio_count.load(std::sync::atomic::Ordering::Relaxed) == 0 {
+        let sr = stateright_states(&start, &alphabet, Some(enabled.clone()), false);
+        if sr != out.states {
+            machinery_error(&format!("C09: stateright explored {} unique states, own explorer {}", sr, out.states));
+        }
+        extra["stateright_unique_states"] = json!(sr);
     }
-    extra["stateright_unique_states"] = json!(sr);
     let samples = sample_paths(&out, &alphabet, 3);
     finish_explore(
         ctx,
@@ -405,7 +407,7 @@ pub fn run_c12(ctx: &Ctx) -> i32 {
     let ex = Explorer { ctx, name: "admin-migration".into(), alphabet: alphabet.clone(), homes: &homes, max_depth: ctx.tier.pick(3, usize::MAX), max_states: ctx.tier.pick(60_000, 3_000_000), ext: false, invariant: None, keep_states: true, enabled: None };
     let out = ex.run(&starts.genesis);
     let mut extra = json!({});
-    if out.closed && out.states < 200_000 {
+    if out.closed && out.caps.is_empty() && out.states < 200_000 && ctx.vio_count.load(std::sync::atomic::Ordering::Relaxed) == 0 {
         let sr = stateright_states(&starts.genesis, &alphabet, None, false);
         if sr != out.states {
             machinery_error(&format!("C12: stateright explored {} unique states, own explorer {}", sr, out.states));
